@@ -28,8 +28,10 @@ PAUSE_RESUME = {"hb_promotion", "hb_pasha", "hb_cost_promotion", "hb_rush_promot
 # --------------------------------------------------------------------------
 # spaces
 # --------------------------------------------------------------------------
-def gen_domain(r, finite=False, numeric=False):
+def gen_domain(r, finite=False, numeric=False, simple=False):
     kinds = ["choice", "randint", "finrange", "ordinal", "logfinrange", "lograndint"]
+    if simple:
+        kinds = ["choice", "randint", "ordinal"]  # enumerable spaces (restrict_configurations can list them)
     if not finite:
         kinds += ["uniform", "loguniform", "reverseloguniform", "quniform", "qloguniform", "qrandint", "uniform", "loguniform"]
     if numeric:
@@ -139,11 +141,11 @@ def effective_space_size(scen):
     return n
 
 
-def gen_space(r, finite=False, numeric=False, max_dims=4, tiny=False):
+def gen_space(r, finite=False, numeric=False, max_dims=4, tiny=False, simple=False):
     n = r.randint(1, max_dims)
     space = []
     for i in range(n):
-        space.append(["x%d" % i, gen_domain(r, finite=finite or tiny, numeric=numeric)])
+        space.append(["x%d" % i, gen_domain(r, finite=finite or tiny, numeric=numeric, simple=simple and tiny)])
     if r.chance(0.3):
         space.append(["c0", ["const", r.choice([7, "fixed", 0.5])]])
     return space
@@ -205,7 +207,7 @@ def gen_scenario(root, profile=None):
     tiny = r.chance(p["p_tiny_space"]) or kind == "fifo_grid"
     numeric = kind == "pbt" and r.chance(0.7)
     space = gen_space(r, finite=(kind == "fifo_grid"), numeric=numeric, tiny=tiny,
-                      max_dims=2 if tiny else 4)
+                      max_dims=2 if tiny else 4, simple=bool(p.get("simple_finite")))
     if p["world"] == "sim":
         # finite, fully tabulated space (<= 40 rows) of exactly matchable values
         space = []
